@@ -239,7 +239,9 @@ func TestWorker(t *testing.T) {
 			plan := pd.gen(seed, thorough)
 			curPlan = plan
 			prePath := ""
-			if pd.crashy && rdir != "" {
+			if rdir != "" {
+				// (every property: a run may kill the process - a fatal runtime error
+				// inside the emulator cannot be recovered - and its plan must survive)
 				prePath = fmt.Sprintf("%s/pre-%s-%d.json", rdir, pd.id, seed)
 				writeReplay(prePath, &ReplayFile{Property: pd.id, Seed: seed, Plan: plan, Tape: nil, Viol: &Violation{Oracle: "process-death", Fp: "process-death", Msg: "the worker process died while executing this run"}, Note: "tape is regenerated from the seed"})
 			}
